@@ -2,5 +2,6 @@ SPECIFICATION Spec
 CONSTANT Depth = 4
 CONSTANT Shift = "4294966295"
 CONSTANT Win0 = 3
+CONSTANT Mms = 0
 INVARIANT Emit
 CHECK_DEADLOCK FALSE
